@@ -675,6 +675,13 @@ constexpr bool will_conversion_truncate(Quantity<U, R> q, TargetUnitSlot target_
         return true;
     }
 
+    // Narrowing from an integral `Common` can never truncate, so we are done.  This also avoids
+    // performing the conversion for values where it would overflow (which is undefined behaviour
+    // for signed integral types).
+    if (std::is_integral<Common>::value) {
+        return false;
+    }
+
     const auto converted_but_not_narrowed = to_common.coerce_in(target_unit);
     return detail::will_static_cast_truncate<TargetRep>(converted_but_not_narrowed);
 }
